@@ -102,7 +102,9 @@ pub fn gen_spec(rng: &mut Rng, o: &SpecOpts) -> SpecTable {
         let make_master = depth + 1 < o.max_depth && rng.chance(2, 5);
         let mut ty = if make_master { Ty::Master } else { *rng.pick(&leaf_tys) };
         // optionally a trailing placeholder
-        let can_global = o.globals && !parent_has_global && rng.chance(1, 6);
+        // a placeholder after the parent: also when the parent's own path already has one (several
+        // placeholders in one path, never adjacent, as the derive macro allows) if intermediate ones are on
+        let can_global = o.globals && (!parent_has_global || o.intermediate_globals) && rng.chance(1, 6);
         if can_global {
             let min = if rng.chance(1, 2) { None } else { Some(rng.below(3)) };
             let max = if rng.chance(1, 2) { None } else { Some(min.unwrap_or(0) + 1 + rng.below(3)) };
